@@ -274,6 +274,12 @@ def odd_situations():
         out.append(('shutdown:tunnel-up:%s' % lab, conf, None, [('acquire', 'A', 0, 0), 'drain', 'close:A', 'close:B']))
         out.append(('shutdown:request-outstanding:%s' % lab, conf, None, [('acquire', 'A', 0, 0), 'drain', ('acquire', 'A', 0, 0), 'close:A', 'close:B']))
         out.append(('shutdown:before-any-traffic:%s' % lab, conf, None, ['close:A']))
+    # keys of every size the kernel structures take (the 512-bit integrity key fills its field exactly), ESP and AH
+    for proto in ('esp', 'ah'):
+        for integ in ('sha1', 'sha256', 'sha512'):
+            ent = dict(ipsec_proto=proto, integ=[integ])
+            out.append(('child-keys:%s:%s' % (proto, integ), S.base_confs(a_entry=ent, b_entry=ent), None,
+                        [('acquire', 'A', 0, 0), 'drain', 'soft:A', 'drain', ('acquire', 'B', 0, 0), 'drain']))
     out.append(('dh-secrets-with-leading-zero', c, None,
                 [('acquire', 'A', 0, 0), 'drain'] + [('due', 'A', -1, 'rekey_ike'), 'drain', ('acquire', 'B', 0, 0), 'drain'] * 5))
     return out
